@@ -30,6 +30,8 @@ class C01(UtfCheck):
 
     def gen(self, rng, tier):
         quick = tier == 'quick'
+        # use of the library during program and thread shutdown (after its own statics / thread_locals are gone)
+        yield 'shutdown'
         # 1. boundary scalars in every position, every function/route/mode
         seqs = []
         for b in B_SCALARS:
